@@ -166,6 +166,31 @@ func applyLenCond(cur IntervalSet, cond ssa.Value, truth bool, same func(ssa.Val
 			return applyLenCond(cur, c.X, !truth, same)
 		}
 	case *ssa.BinOp:
+		// if err := check(x); err != nil { return }  —  a validation helper whose success implies a length
+		if c.Op == token.EQL || c.Op == token.NEQ {
+			var other ssa.Value
+			if isNilConst(c.Y) {
+				other = c.X
+			} else if isNilConst(c.X) {
+				other = c.Y
+			}
+			if other != nil {
+				if call, ok := other.(*ssa.Call); ok {
+					if f := call.Call.StaticCallee(); f != nil && inModule(f) {
+						for ai, a := range call.Call.Args {
+							if same(a) {
+								if reg, ok := successLenRegion(f, ai); ok {
+									success := (c.Op == token.EQL) == truth
+									if success {
+										return cur.Intersect(reg)
+									}
+								}
+							}
+						}
+					}
+				}
+			}
+		}
 		isLen := func(v ssa.Value) bool {
 			call, ok := v.(*ssa.Call)
 			if !ok {
@@ -336,6 +361,7 @@ func isBufParam(v ssa.Value) bool {
 }
 
 func RulePanic(r *Report, p *Program, tier string, wireTypes map[string]bool) {
+	lintProgram = p
 	r.Rule("P1", "every index/slice expression is discharged: constant index inside a constant length, dominating length guard, loop bound, message-buffer access under the 64-byte/offset rules, read count of the same buffer, or minimum text width", 60)
 	r.Rule("P2", "a table (array/slice literal) indexed by a value that can come from the wire is guarded by a bound check", 1)
 	r.Rule("P3", "every unchecked type assertion is justified by the origin of the asserted value", 2)
@@ -465,28 +491,53 @@ func classifyPanic(p *Program, fn *ssa.Function, x *ssa.Panic) panicSite {
 		}
 		okAll := true
 		n := 0
-		for _, caller := range p.AllFuncs {
-			for _, b := range caller.Blocks {
-				for _, in := range b.Instrs {
-					c, ok := in.(ssa.CallInstruction)
-					if !ok || c.Common().StaticCallee() != fn {
-						continue
-					}
-					n++
-					for _, a := range c.Common().Args {
-						if mi, ok := a.(*ssa.MakeInterface); ok {
-							if !handled[mi.X.Type().String()] {
-								okAll = false
-								s.detail = fmt.Sprintf("caller %s passes a %s, which the type switch does not handle", calleeName(caller), mi.X.Type())
+		var check func(target *ssa.Function, only int, depth int)
+		seenT := map[*ssa.Function]bool{}
+		check = func(target *ssa.Function, only int, depth int) {
+			if depth > 3 || seenT[target] {
+				return
+			}
+			seenT[target] = true
+			for _, caller := range p.AllFuncs {
+				for _, b := range caller.Blocks {
+					for _, in := range b.Instrs {
+						c, ok := in.(ssa.CallInstruction)
+						if !ok || c.Common().StaticCallee() != target {
+							continue
+						}
+						n++
+						for ai, a := range c.Common().Args {
+							if only >= 0 && ai != only {
+								continue
 							}
-						} else if types.IsInterface(a.Type()) {
-							okAll = false
-							s.detail = "caller " + calleeName(caller) + " passes a value of unknown dynamic type"
+							if mi, ok := a.(*ssa.MakeInterface); ok {
+								if !handled[mi.X.Type().String()] {
+									okAll = false
+									s.detail = fmt.Sprintf("caller %s passes a %s, which the type switch does not handle", calleeName(caller), mi.X.Type())
+								}
+							} else if types.IsInterface(a.Type()) {
+								// the caller hands on its own parameter: its callers decide (an unexported helper chain)
+								if prm, ok := a.(*ssa.Parameter); ok && caller.Object() != nil && !caller.Object().Exported() {
+									idx := -1
+									for pi, cp := range caller.Params {
+										if cp == prm {
+											idx = pi
+										}
+									}
+									if idx >= 0 {
+										check(caller, idx, depth+1)
+										continue
+									}
+								}
+								okAll = false
+								s.detail = "caller " + calleeName(caller) + " passes a value of unknown dynamic type"
+							}
 						}
 					}
 				}
 			}
 		}
+		check(fn, -1, 0)
 		if fn.Object() != nil && fn.Object().Exported() {
 			okAll = false
 			s.detail = "exported function panics on unhandled argument types"
@@ -691,6 +742,10 @@ func classifyIndex(p *Program, fn *ssa.Function, in ssa.Instruction, base, idx s
 	lb := lenBounds(in.Block(), base)
 	if isConst && ci >= 0 && ci < minOf(lb) {
 		s.ok, s.why = true, "constant index below a dominating length guard"
+		return s
+	}
+	if isConst && ci >= 0 && ci < callerMinLen(p, fn, base, 0) {
+		s.ok, s.why = true, "constant index below the length every caller of this helper has established"
 		return s
 	}
 	if n, ok := makeSliceLen(base); ok && isConst && ci >= 0 && ci < n {
@@ -991,6 +1046,9 @@ func classifySlice(p *Program, fn *ssa.Function, x *ssa.Slice) panicSite {
 		min = n
 	}
 	if n, ok := bcdDecodeLen(x.X); ok && n > min {
+		min = n
+	}
+	if n := callerMinLen(p, fn, x.X, 0); n > min {
 		min = n
 	}
 	if x.High == nil && x.Low != nil {
@@ -1412,4 +1470,104 @@ func crossCheckBCE(r *Report, p *Program, sites []panicSite) {
 	r.Count("compiler_unproven_bounds_checks", len(lines))
 	r.Check(len(missing) == 0 && len(lines) > 0, "P1x", "bce-list", "", fmt.Sprintf("%d compiler-reported checks all inventoried", len(lines)),
 		"bounds checks reported by the compiler but absent from the inventory: "+strings.Join(missing, ", "))
+}
+
+var lintProgram *Program
+
+var successLenMemo = map[string]IntervalSet{}
+
+// successLenRegion: for a validation helper f(.., buf, ..) error, the lengths of buf for which it returns nil.
+func successLenRegion(f *ssa.Function, argIdx int) (IntervalSet, bool) {
+	if lintProgram == nil || f.Blocks == nil || argIdx >= len(f.Params) {
+		return nil, false
+	}
+	res := f.Signature.Results()
+	if res.Len() != 1 || !isErrorType(res.At(0).Type()) {
+		return nil, false
+	}
+	key := fmt.Sprintf("%s#%d", f.String(), argIdx)
+	if r, ok := successLenMemo[key]; ok {
+		return r, r != nil
+	}
+	successLenMemo[key] = nil
+	w := NewWalker(lintProgram)
+	w.Inline = inlineHelpers(nil, nil)
+	args := symbolicArgs(f)
+	name := args[argIdx].Name
+	var out IntervalSet
+	for _, pa := range w.Walk(f, args, nil) {
+		if pa.Outcome != "return" || len(pa.Results) != 1 {
+			return nil, false
+		}
+		switch errNilness(pa, pa.Results[0]) {
+		case 1:
+			reg, ok := pa.State.Ints["len("+name+")"]
+			if !ok {
+				return nil, false
+			}
+			out = append(out, reg...)
+		case -1:
+			return nil, false
+		}
+	}
+	if len(out) == 0 {
+		return nil, false
+	}
+	out = normalise(out)
+	successLenMemo[key] = out
+	return out, true
+}
+
+// callerMinLen: v is a slice parameter of an unexported function: the minimum length that every static call
+// site has established for the corresponding argument (dominating guards, or the caller's own callers).
+func callerMinLen(p *Program, fn *ssa.Function, v ssa.Value, depth int) int64 {
+	prm, ok := v.(*ssa.Parameter)
+	if !ok || depth > 3 || fn.Object() == nil || fn.Object().Exported() {
+		return 0
+	}
+	if _, isSlice := prm.Type().Underlying().(*types.Slice); !isSlice {
+		return 0
+	}
+	idx := -1
+	for i, q := range fn.Params {
+		if q == prm {
+			idx = i
+		}
+	}
+	if idx < 0 {
+		return 0
+	}
+	min := int64(math.MaxInt64)
+	n := 0
+	for _, caller := range p.AllFuncs {
+		for _, b := range caller.Blocks {
+			for _, in := range b.Instrs {
+				// the function used as a value (stored, passed on): callers unknown
+				for _, op := range in.Operands(nil) {
+					if *op == ssa.Value(fn) {
+						if ci, isCall := in.(ssa.CallInstruction); !isCall || ci.Common().Value != ssa.Value(fn) {
+							return 0
+						}
+					}
+				}
+				ci, ok := in.(ssa.CallInstruction)
+				if !ok || ci.Common().StaticCallee() != fn || idx >= len(ci.Common().Args) {
+					continue
+				}
+				n++
+				arg := ci.Common().Args[idx]
+				m := minOf(lenBounds(b, arg))
+				if k := callerMinLen(p, caller, arg, depth+1); k > m {
+					m = k
+				}
+				if m < min {
+					min = m
+				}
+			}
+		}
+	}
+	if n == 0 {
+		return 0
+	}
+	return min
 }
